@@ -22,6 +22,7 @@ P1 = (1, 'feature/a', 'development/4.3')
 P2 = (2, 'bugfix/b', 'development/5.1')
 P2b = (2, 'bugfix/b', 'development/4.3')
 PS = (1, 'bugfix/s', 'stabilization/4.3.18')
+P3 = (2, 'bugfix/b', 'development/10.0')
 
 
 # -- monitors evaluated after every observable remote update of every job -------------------
@@ -323,7 +324,8 @@ def make_harness(cfg):
         mons = sym_monitors(cfg['shape'], prs, cfg.get('which', ()))
         s = H.SymSession(ctx, cfg['shape'], prs, cfg['mode'], no_octopus=cfg.get('no_octopus', True),
                          settings=cfg.get('settings'), monitors=mons, with_w=cfg.get('with_w', False),
-                         extra_refs=cfg.get('extra_refs', ()), nfresh=cfg.get('nfresh', 24))
+                         extra_refs=cfg.get('extra_refs', ()), nfresh=cfg.get('nfresh', 24),
+                         green=cfg.get('green', False), no_conflicts=cfg.get('no_conflicts', False))
         choose = SymChooser(ctx)
         labels = cfg['scen'](s, choose)
         labels = list(dict.fromkeys(labels))
@@ -567,10 +569,11 @@ def family(prop, tier):
                             signame='orders queue'))
         out.append(_cfg('ord:noqueue:F:merge', 'orders noqueue: evaluate twice, merged', F, [P1], 'noqueue',
                         scen_orders([EV1, EV1, EV1]), settings=ipr, signame='orders noqueue'))
-        out.append(_cfg('ord:queue:F:2prs', 'orders queue: PR on the newer branch queued first, PR on the older one '
-                        'second, both merged by one queue evaluation', F, [P1, P2], 'queue',
+        out.append(_cfg('ord:queue:A:2prs', 'orders queue, 3 targets: PR on the newest branch queued first, PR on the '
+                        'oldest one second, both merged by one queue evaluation', A, [P1, P3], 'queue',
                         scen_orders([('eval_pr', 2), EV1, ('eval_queues',), EV1, ('eval_pr', 2)]),
-                        signame='orders queue 2 PRs', expect_outcomes=['Merged']))
+                        signame='orders queue 2 PRs', expect_outcomes=['Merged'], nfresh=30,
+                        green=(tier != 'thorough'), no_conflicts=(tier != 'thorough')))
         out.append(_cfg('par:queue:F:child', 'event on the integration pull request = event on the parent',
                         F, [P1], 'queue', scen_same_as_parent([EV1], _child_event, EV1), settings=ipr))
         out.append(_cfg('par:queue:F:wtip', 'commit event on the integration tip = event on the parent',
